@@ -470,6 +470,11 @@ func (f *FuncVC) loopEffects(li *loopInfo) *havocSet {
 
 func (f *FuncVC) loopHead(st *State, li *loopInfo) {
 	f.curPos = li.stmt.Pos()
+	if li.con == nil && f.con != nil && f.con.Opts["only"] == "frame" {
+		// frame-only contract: loops need no invariant (cells not assigned in
+		// the loop keep their values); termination is not claimed
+		li.con = &LoopContract{Ordinal: li.ordinal, NoTermination: true}
+	}
 	if li.con == nil {
 		if f.con != nil && f.con.Bounded > 0 {
 			f.unsup("bounded mode not implemented for this loop")
